@@ -11,6 +11,46 @@ from .. import lawcheck, mirror_as
 from ..common import Run, check_exc, pmap
 
 
+def _monotonic_job(k):
+    """The monotonicity constraint of a spanwise distribution under reflection: on the mirror image of a full-span surface
+    (centred, moved sideways, with unequal semi-spans - the centreline need not be a node) the reversed distribution gives the
+    reversed constraint vector, hence the same verdict; a left half and the right half that is its mirror image agree likewise
+    up to the documented root-to-tip orientation."""
+    from openaerostruct.geometry.monotonic_constraint import MonotonicConstraint
+
+    from .. import builders as B
+    from ..common import seed
+    from ..onecomp import run_comp
+
+    rng = np.random.default_rng(seed() * 191 + k)
+    ny = int(2 * rng.integers(1, 7) + 1)  # full-span surfaces have an odd number of spanwise nodes (C14; an even count leaves the centre element without a root-to-tip direction)
+    mesh = np.zeros((2, ny, 3))
+    ys = np.sort(rng.uniform(-1.0, 1.0, ny)) * float(rng.uniform(2, 20))
+    if k % 3 == 0:
+        ys = np.linspace(-5.0, 5.0, ny)  # centred, the centreline is a node for odd ny
+    elif k % 3 == 1:
+        ys = ys + float(rng.uniform(0.5, 8.0))  # moved sideways
+    mesh[:, :, 1] = ys
+    mesh[1, :, 0] = 1.0
+    mir = mesh[:, ::-1, :].copy()
+    mir[:, :, 1] *= -1
+    var = rng.uniform(0.5, 2.0, ny)
+    bad = []
+    got = run_comp(MonotonicConstraint(var_name="chord", surface={"name": "wing", "mesh": mesh, "symmetry": False}), {"chord": var}, ["monotonic_chord"])["monotonic_chord"]
+    gom = run_comp(MonotonicConstraint(var_name="chord", surface={"name": "wing", "mesh": mir, "symmetry": False}), {"chord": var[::-1].copy()}, ["monotonic_chord"])["monotonic_chord"]
+    if got.shape != gom.shape or not (float(np.max(np.abs(gom - got[::-1]))) <= 1e-14):
+        bad.append(("monotonic:mirror_image_constraint_differs", {"ny": ny, "y": ys.tolist()}))
+    # a distribution that decreases from the centre node to both tips satisfies the constraint (odd ny), one that increases violates it
+    if ny % 2:
+        c = (ny - 1) // 2
+        dec = 2.0 - 0.1 * np.abs(np.arange(ny) - c)
+        v = run_comp(MonotonicConstraint(var_name="chord", surface={"name": "wing", "mesh": mesh, "symmetry": False}), {"chord": dec}, ["monotonic_chord"])["monotonic_chord"]
+        w = run_comp(MonotonicConstraint(var_name="chord", surface={"name": "wing", "mesh": mesh, "symmetry": False}), {"chord": 3.0 - dec}, ["monotonic_chord"])["monotonic_chord"]
+        if not (np.all(v < 0) and np.all(w > 0)):
+            bad.append(("monotonic:verdict", {"ny": ny, "decreasing": v.tolist(), "increasing": w.tolist()}))
+    return {"k": k, "bad": bad}
+
+
 def run(tier, only=None):
     R = Run("C07", tier, "model_checking")
     depth = 2 if tier == "quick" else 3
@@ -22,6 +62,10 @@ def run(tier, only=None):
         R.case(r["key"], not r.get("inadmissible", False), sample=r if r["k"] % 7 == 0 else None, section=r["key"][0])
         for sig, payload in r["bad"]:
             R.violation(sig, {"job": r["job"], "detail": payload})
+    for r in check_exc(pmap(_monotonic_job, range(24 if tier == "quick" else 240))):
+        R.case(["monotonic", r["k"]], True, section="monotonic_constraint")
+        for sig, payload in r["bad"]:
+            R.violation(sig, {"k": r["k"], "detail": payload})
     R.assume(
         "mirror law: polar vectors (x,y,z)->(x,-y,z), axial (-x,y,-z), spanwise arrays reversed; rotation rates, sideslip, cg_y, point masses, loads mirrored",
         "aerostructural pairs solved to coupled atol 1e-8 N / rtol 1e-14; compared at rel 1e-8",
